@@ -180,7 +180,7 @@ def c02(tier):
 def dec_shapes(tier):
     if tier == "quick":
         return [(a, m) for a in (0, 1, 5, 8) for m in range(10)] + [(3, 17), (0, 33)]
-    t = set((a, m) for a in range(0, 18, 1) for m in range(18) if a % 2 == 0 or m % 4 == 1)
+    t = set((a, m) for a in (0, 1, 2, 3, 4, 5, 8, 16, 17, 33) for m in range(18))
     t |= set((a, m) for a in (0, 33) for m in (31, 32, 33, 63, 64, 65, 127, 129, 255, 258))
     return sorted(t)
 
@@ -189,7 +189,8 @@ def dec_jobs(tier, mode, harness="c03_dec.c", tag="dec"):
     jobs = []
     for ks in KSS:
         for (a, m) in dec_shapes(tier):
-            if tier == "quick" and harness == "c03_call.c" and not ((a in (0, 5) and m in (0, 1, 3, 4, 5, 8)) or (a, m) in ((3, 17), (0, 33))):
+            if harness == "c03_call.c" and not ((a in (0, 5) and m in (0, 1, 3, 4, 5, 8)) or (a, m) in ((3, 17), (0, 33)) or
+                                                (tier != "quick" and (a, m) in ((33, 64), (0, 255), (17, 17), (1, 2), (2, 3)))):
                 continue            # the call-contract variant has no data-dependent paths: a thinner cross-section
             for inplace in (0, 1):
                 d = {"KS": ks, "MODE": mode, "ADLEN": a, "MLEN": m, "INPLACE": inplace}
@@ -222,10 +223,13 @@ def checktag_jobs(tier):
     # lengths around every plausible counter / vector width (8-bit byte and word counters, 16-bit counters)
     ps = list(range(0, 41)) + [255, 256, 257, 1023, 1024, 1025]
     if tier != "quick":
-        ps += [64, 1000, 1027, 4099, 65535, 65536, 65537, 262147]
-    return [Job("checktag-p%d" % p, "c03_checktag.c", {"PLEN": p}, LIBC + S("backend/tinyjambu-util.c"),
+        ps += [64, 1000, 1027, 4099, 16385]          # 65535+ exhausts memory in symex; wider counters are left to the length probe
+    jobs = [Job("checktag-p%d" % p, "c03_checktag.c", {"PLEN": p}, LIBC + S("backend/tinyjambu-util.c"),
                 S("backend/tinyjambu-util.c"), backend="sat", unwind=p + 12, timeout=600 if p < 5000 else 3000,
                 facet="check_tag-real-code") for p in ps]
+    jobs += api_probes("checktag", 8, LIBC + S("backend/tinyjambu-util.c"),
+                       (os.path.join(HARN, "c03_checktag.c"), {}, S("backend/tinyjambu-util.c"), "PLEN"))
+    return jobs
 
 
 def dec_align(jobs):
@@ -242,7 +246,7 @@ def c03(tier):
                      ["tinyjambu_%d_aead_decrypt" % k for k in KSS],
         "units": ["src/backend/tinyjambu-util.c", "src/tinyjambu-{128,192,256}-aead.c",
                   "src/backend/tinyjambu-aead-common-{128,192,256}.c"],
-        "bounds": "check_tag: plaintext_len 0..40, 255..257, 1023..1025 (thorough + 4099, 65535..65537, 262147), all tag pairs, all plaintext bytes; "
+        "bounds": "check_tag: plaintext_len 0..40, 255..257, 1023..1025 (thorough + 4099, 16385) plus a symbolic-length truncation probe, all tag pairs, all plaintext bytes; "
                   "decrypt: arbitrary (key, nonce, ad, body, tag) with tag = spec tag XOR arbitrary delta, shapes "
                   "ad in {0,1,5,8} x body 0..9 + (3,17),(0,33) (thorough: wider, up to 258), in place and separate; "
                   "call-contract variant with a recording check_tag; clen 0..7 exhaustively",
@@ -266,7 +270,7 @@ def c04(tier):
                   "src/backend/tinyjambu-aead-common-{128,192,256}.c"],
         "bounds": "as C03; rejection => every byte of the clen-8 region is zero, acceptance => the specification's "
                   "plaintext; arbitrary prior buffer contents; in place and separate; 6 cipher variants; check_tag alone "
-                  "with plaintext_len 0..40, 255..257, 1023..1025 (thorough up to 262147) shows every byte is ANDed with the verdict mask",
+                  "with plaintext_len 0..40, 255..257, 1023..1025 (thorough up to 16385, plus the symbolic-length probe) shows every byte is ANDed with the verdict mask",
         "outside": "message lengths outside the window for the end-to-end queries (the clearing loop itself is decided "
                    "for lengths up to 1000 on check_tag alone, and the call contract shows it receives the full region)",
         "stubs": AEAD_STUBS + [SPEC_NOTE], "assumptions": AEAD_ASSUME, "relies_on": ["C05"],
@@ -367,6 +371,8 @@ def c10(tier):
         jobs.append(hash_job("hash-n%d-split%d-%d" % (n, c1, c2), {"N": n, "C1": c1, "C2": c2}, "conformance-3-updates", tier, n=n))
     for n in (0, 1, 15, 16, 17, 33):
         jobs.append(hash_job("hash-oneshot-n%d" % n, {"N": n, "C1": 0, "C2": 0, "ONESHOT": None}, "one-shot tinyjambu_hash", tier, n=n))
+    for (n, pre) in ((0, 5), (17, 1), (33, 15), (20, 16), (5, 37)):
+        jobs.append(hash_job("hash-reinit-n%d-pre%d" % (n, pre), {"N": n, "C1": n // 2, "C2": 0, "REINIT_PRE": pre}, "reinit after an abandoned partial message", tier, n=n + pre))
     jobs += api_probes("hash", 2, LIBC + PERM_UF + HASH_REAL + CLEAN,
                        (os.path.join(HARN, "c10_hash.c"), {"C1": 0, "C2": 0}, HASH_NATIVE + HASH_REAL, "N"))
     jobs += align_variants(jobs, lambda j: j.name in ("hash-n16", "hash-n17", "hash-n33", "hash-n48", "hash-n70", "hash-n5-split1-2", "hash-n33-split7-9",
